@@ -42,6 +42,9 @@ template <class T> static void queries (const Frustum<T>& F, Gen<T>& g, int prog
         r.raw ("aspect", jw (F.aspect ())); r.num ("degenerate", F.degenerate ());
         Plane3<T> p[6]; F.planes (p); r.raw ("planes", jplanes (p));
         T hy[2] = {F.hither (), F.yon ()}; r.raw ("hy", jlist (hy, 2));
+        // the checked twins: where they return, they return the same bits
+        try { r.raw ("mExc", jv (F.projectionMatrixExc ())); } catch (const std::exception&) {}
+        try { r.raw ("aspectExc", jw (F.aspectExc ())); } catch (const std::exception&) {}
         r.emit ();
     }
     {
@@ -75,7 +78,11 @@ template <class T> static void queries (const Frustum<T>& F, Gen<T>& g, int prog
         Rec r ("pt"); r.str ("t", t); putstate (r, "st", "o", F); r.raw ("m", jv (F.projectionMatrix ())); r.raw ("p", jv (p)); r.raw ("s", jv (s));
         r.raw ("pos", jv (ray.pos)); r.raw ("dir", jv (ray.dir)); r.raw ("s2", jv (F.projectPointToScreen (onray))); r.raw ("onray", jv (onray));
         r.raw ("loc", jv (loc)); r.raw ("back", jv (FrX<T> (F).localToScreen (loc)));
-        r.raw ("rad", jw (rad)); r.raw ("sr", jw (sr)); r.raw ("wr", jw (F.worldRadius (p, sr))); r.emit ();
+        r.raw ("rad", jw (rad)); r.raw ("sr", jw (sr)); r.raw ("wr", jw (F.worldRadius (p, sr)));
+        try { r.raw ("sExc", jv (F.projectPointToScreenExc (p))); } catch (const std::exception&) {}
+        try { r.raw ("srExc", jw (F.screenRadiusExc (p, rad))); } catch (const std::exception&) {}
+        try { r.raw ("wrExc", jw (F.worldRadiusExc (p, sr))); } catch (const std::exception&) {}
+        r.emit ();
     }
     for (int k = 0; k <= 4; ++k)
     {
@@ -86,7 +93,11 @@ template <class T> static void queries (const Frustum<T>& F, Gen<T>& g, int prog
         T d2 = F.ZToDepth (Z, zmin, zmax);
         long Zq = zmin + (zmax - zmin) * k / 4;
         Rec r ("depth"); r.str ("t", t); putstate (r, "st", "o", F); r.raw ("zn", jw (zn)); r.raw ("d", jw (d)); r.num ("zmin", zmin); r.num ("zmax", zmax); r.num ("Z", Z);
-        r.raw ("d2", jw (d2)); r.num ("Zq", Zq); r.raw ("dq", jw (F.ZToDepth (Zq, zmin, zmax))); r.emit ();
+        r.raw ("d2", jw (d2)); r.num ("Zq", Zq); r.raw ("dq", jw (F.ZToDepth (Zq, zmin, zmax)));
+        try { r.raw ("dExc", jw (F.normalizedZToDepthExc (zn))); } catch (const std::exception&) {}
+        try { r.num ("ZExc", F.DepthToZExc (d, zmin, zmax)); } catch (const std::exception&) {}
+        try { r.raw ("d2Exc", jw (F.ZToDepthExc (Z, zmin, zmax))); } catch (const std::exception&) {}
+        r.emit ();
     }
 }
 
